@@ -786,19 +786,102 @@ func runTLock[T comparable](r *rand.Rand, cfg contCfg, steps int, pool []pkey, e
 				res[i] = cntTerm(0, 0, false, false)
 			default:
 				t := ts[i]
+				// a key may be listed several times in one read batch: the hook is read once, after the call;
+				// the answer written down for an occurrence is that count corrected by the occurrences of the same
+				// key still to come in the batch (the same correction for both containers), so that the batch reads
+				// as the sequence of single calls the model runs
+				later := 0
+				for j := i + 1; j < len(ks); j++ {
+					if ks[j].hk == ks[i].hk {
+						later++
+					}
+				}
 				res[i] = guard(func() string {
 					rc, wc, present := keylock.VerifKeyCounts[T](l, t)
+					if later > 0 {
+						if op == 2 {
+							rc -= later
+						} else if op == 3 {
+							rc += later
+						}
+						present = rc != 0 || wc != 0
+					}
 					return cntTerm(rc, wc, present, true)
 				})
 			}
 		}
 		return res
 	}
+	// a Lock that may have to wait (only ever issued on a key the history left free): observed positively
+	probe := func(l keylock.TLocker[T], k pkey) string {
+		t := k.v.(T)
+		done := spawn(func() { l.Lock(t) })
+		st := observeBlocking(done, func() bool {
+			ok := false
+			guard(func() string {
+				_, wc, _ := keylock.VerifKeyCounts[T](l, t)
+				ok = wc >= 1
+				return ""
+			})
+			return ok
+		})
+		switch st {
+		case "ok", "blocked":
+			return guard(func() string {
+				rc, wc, present := keylock.VerifKeyCounts[T](l, t)
+				return cntTerm(rc, wc, present, st == "ok")
+			})
+		case "panic":
+			return "RPanic"
+		}
+		return "RInvalid"
+	}
+	// at the end (or as soon as the two lockers have answered differently): every key the history left free must
+	// be lockable at once, on both lockers
+	finish := func() {
+		for j, k := range pool {
+			if state[j].r != 0 || state[j].w != 0 {
+				continue
+			}
+			a, b := probe(sh, k), probe(un, k)
+			if !emit("OLock "+k.hk, "Lock "+k.desc+" (final probe of a key left free)", k, a, b, b) || a != b || !strings.HasSuffix(a, "true)") {
+				return
+			}
+			ua, ub := do(sh, 1, []pkey{k}), do(un, 1, []pkey{k})
+			if !emit("OUnlock "+k.hk, "Unlock "+k.desc, k, ua[0], ub[0], ub[0]) || ua[0] != ub[0] {
+				return
+			}
+		}
+	}
 	for s := 0; s < steps; s++ {
 		ki := r.Intn(len(pool))
 		op := pickLockOp(r, state[ki])
 		idxs := []int{ki}
-		if r.Intn(3) == 0 {
+		if op >= 2 && r.Intn(3) == 0 {
+			// a read batch that lists keys more than once: RLocks / RUnlocks count every occurrence
+			// (write batches with a repeated key block on themselves, sharded or not, and are left out)
+			room := func(j int) int {
+				if op == 2 {
+					return 2
+				}
+				return state[j].r - 1
+			}
+			left := map[int]int{ki: room(ki)}
+			for _, j := range r.Perm(len(pool)) {
+				c := state[j]
+				if j != ki && r.Intn(3) == 0 && ((op == 2 && c.w == 0) || (op == 3 && c.r > 0)) {
+					idxs = append(idxs, j)
+					left[j] = room(j)
+				}
+			}
+			for _, j := range append([]int(nil), idxs...) {
+				for n := r.Intn(3); n > 0 && left[j] > 0; n-- {
+					idxs = append(idxs, j)
+					left[j]--
+				}
+			}
+			r.Shuffle(len(idxs), func(a, b int) { idxs[a], idxs[b] = idxs[b], idxs[a] })
+		} else if r.Intn(3) == 0 {
 			// a multi-key call: every other key for which the same operation returns at once, in random order
 			for _, j := range r.Perm(len(pool)) {
 				if j == ki || r.Intn(2) == 0 {
@@ -836,12 +919,28 @@ func runTLock[T comparable](r *rand.Rand, cfg contCfg, steps int, pool []pkey, e
 			d := lockOpNames[op][1:] + " " + k.desc
 			if multi != "" {
 				d += fmt.Sprintf(multi, i+1)
+				times := 0
+				for _, x := range ks {
+					if x.hk == k.hk {
+						times++
+					}
+				}
+				if times > 1 {
+					d += fmt.Sprintf(" [key listed %d times in this call: the counts are those read after the call, corrected by the occurrences still to come]", times)
+				}
 			}
 			if !emit(lockOpNames[op]+" "+k.hk, d, k, a[i], b[i], b[i]) {
 				return
 			}
 		}
+		for i := range ks {
+			if a[i] != b[i] {
+				finish()
+				return
+			}
+		}
 	}
+	finish()
 }
 
 // ---- semaphore maps: acquisitions with a context that is already cancelled never block ----
